@@ -36,8 +36,8 @@ def props(B, kind, rng, anti, nper=1):
         B.prop("blockprops", name="heat", kx=rng.choice([1.0, 20.0]), ky=1.0, qv=rng.choice([1e3, -5e2]))
         ids["zero"] = B.prop("bdryprops", name="zero", type=0, Tset=0.0)
         ids["fix"] = B.prop("bdryprops", name="fix", type=0, Tset=rng.choice([300.0, 350.0, -20.0]))
-    t = PER_TYPE[kind][1 if anti else 0]
-    ids["per"] = [B.prop("bdryprops", name="per%d" % i, type=t) for i in range(nper)]
+    antis = anti if isinstance(anti, (list, tuple)) else [anti] * nper
+    ids["per"] = [B.prop("bdryprops", name="per%d" % i, type=PER_TYPE[kind][1 if antis[i] else 0]) for i in range(nper)]
     return ids
 
 
@@ -78,7 +78,11 @@ def fam_translation(rng, kind, anti, both=False, split=False, smart=None, freq=0
     mid node is then listed by two conditions -> pruning)."""
     B = Builder(kind)
     nper = (2 if split else 1) + (1 if both else 0)
-    ids = props(B, kind, rng, anti, nper)
+    # with two independent pairs the second one may carry the opposite sign (consistent at the shared
+    # corners: V0 = V1, V3 = -V0, V2 = -V1, V3 = V2)
+    mixed = both and rng.random() < 0.5
+    anti_tb = (not anti) if mixed else anti
+    ids = props(B, kind, rng, [anti] * (nper - 1) + [anti_tb] if both else anti, nper)
     settings(B, rng, smart, freq)
     W = rng.choice([2.0, 3.0, 1.5]); H = rng.choice([1.0, 2.0, 1.25])
     x0 = rng.choice([0.0, -1.0, 0.5]); y0 = rng.choice([0.0, 0.25, -2.0])
@@ -104,7 +108,7 @@ def fam_translation(rng, kind, anti, both=False, split=False, smart=None, freq=0
         l = B.seg(d, a, bdry=per[0], maxside=sa)
         info.append(dict(bc=per[0], A=("seg", l), B=("seg", r), motion=("trans", W, 0.0), anti=anti))
     if both:
-        info.append(dict(bc=tb, A=("seg", ib), B=("seg", it), motion=("trans", 0.0, H), anti=anti))
+        info.append(dict(bc=tb, A=("seg", ib), B=("seg", it), motion=("trans", 0.0, H), anti=anti_tb))
     # off-centre inner box carrying the source; with all four sides periodic it also pins the
     # potential (Dirichlet condition on the box) so that the problem is not singular
     bx0, bx1 = x0 + W * 0.25, x0 + W * 0.5
@@ -118,7 +122,7 @@ def fam_translation(rng, kind, anti, both=False, split=False, smart=None, freq=0
     B.p["cell"] = max(W, H)
     B.p["features"] = ["translation", kind, "anti" if anti else "periodic", "both-pairs" if both else "one-pair",
                        "split" if split else "whole", "spacing:%g/%g" % (sa, sb), "smart%d" % B.p["dosmartmesh"]] + \
-                      (["harmonic"] if freq else [])
+                      (["harmonic"] if freq else []) + (["mixed-signs"] if mixed else [])
     return B.p
 
 
